@@ -16,6 +16,10 @@ def main():
     ok = ok and p.returncode == 0
     here = os.path.dirname(os.path.abspath(__file__))
     compileall.compile_dir(here, quiet=1)
+    from . import conformance
+    okc, why = conformance.run(0, trials=400)
+    print('library model conformance:', 'ok' if okc else why)
+    ok = ok and okc
     # engine L: compile the Lean lemma files once and record a stamp (source hash) under /verif/build
     from . import lemmas_t
     for pid in ('C01', 'C18'):
